@@ -133,8 +133,10 @@ def check(ctx: Ctx) -> None:
         so = _split_of(objs[0]) if objs else None
         item = a[1].v if isinstance(a[1], _K) else a[1]
         ctx.check(so is not None and item is r["args"]["class_"] and l.value is bool(v), "C16.has",
-                  "has_class(t) is `t in <class value>.split()`", where, f"{short(item)} in {short(objs[0]) if objs else '?'} -> {short(l.value)}",
-                  f"has_class tests {short(item)} against {short(objs[0]) if objs else '?'}: not whitespace-token membership of the argument",
+                  "has_class(t) is `t in <class value>.split()`", where,
+                  f"{'class_' if item is r['args']['class_'] else 'another value'} in {short(objs[0]) if objs else 'an unidentified container'} -> {short(l.value)}",
+                  f"has_class tests {'class_' if item is r['args']['class_'] else 'another value'} against {short(objs[0]) if objs else 'an unidentified container'}: "
+                  f"not whitespace-token membership of the argument",
                   witness="div(class_='foo-x foobar').has_class('foo') must be False")
     ctx.min_count("has_class membership paths", nm, 2)
     # ---------------- remove_class -------------------------------------------------------------------------------------------------------
